@@ -513,6 +513,40 @@ func runC09(p *P, r *R) {
 		r.ob("R09.6", "(*linkedBuffer).done: the tail is split off whenever the write slice has a successor", p.pos(dn.Pos()), guard, true, "")
 	}
 
+	// ---- R09.9 ReleaseReadAndReuse swaps the buffers only when the read buffer is fully consumed and holds exactly one slice
+	if rr := p.fn("(*Stream).ReleaseReadAndReuse"); rr != nil {
+		n := 0
+		for _, si := range findInstrs(rr, mStoreWord("Stream.recvBuf")) {
+			n++
+			lenZero, oneSlice := false, false
+			for _, fct := range factsAt(si.Block()) {
+				isLen := func(v ssa.Value) bool { return isLoadOf(v, "linkedBuffer.len") }
+				isSz := func(v ssa.Value) bool {
+					c, okc := v.(*ssa.Call)
+					return okc && p.calleeName(&c.Call) == "(*sliceList).size"
+				}
+				isK := func(k int64) func(ssa.Value) bool {
+					return func(v ssa.Value) bool { c, okc := constInt(v); return okc && c == k }
+				}
+				if relOn(fct.Cond, fct.Truth, isLen, isK(0)) == "==" {
+					lenZero = true
+				}
+				if relOn(fct.Cond, fct.Truth, isSz, isK(1)) == "==" {
+					oneSlice = true
+				}
+			}
+			released := false
+			for _, ci := range findInstrs(rr, p.mCall("(*linkedBuffer).releasePreviousReadAndReserve")) {
+				if instrDominates(ci, si) {
+					released = true
+				}
+			}
+			r.ob("R09.9", "ReleaseReadAndReuse: the read buffer becomes the write buffer only after the release, when it is empty and holds one slice", p.ipos(si), lenZero && oneSlice && released, true,
+				"swapping a buffer that still holds unread slices hands them to the writer: they are overwritten or never recycled")
+		}
+		r.count("R09.9", "buffer swaps in ReleaseReadAndReuse", n, 1)
+	}
+
 	// ---- R09.8 census of main-list popFront callers
 	allowed := map[string]string{
 		"(*linkedBuffer).readNextSlice":                 "reader funnel (pinned decision, C08 R08.2)",
